@@ -67,6 +67,15 @@ def scan(args, grouped=False):
                     continue
                 hit = (flag, a[len(flag):])
                 break
+        if a == "-U" or (a.startswith("-U") and len(a) > 2):
+            # -U NAME / -UNAME: a compiler applies -D and -U from left to right, so the definitions of NAME given
+            # so far are dropped (a later -D defines it again)
+            val = a[2:] if len(a) > 2 else (args[i + 1] if i + 1 < n else None)
+            if val is not None:
+                import re as _re
+                defines[:] = [d for d in defines if _re.split(r"[=(]", d, maxsplit=1)[0] != val]
+            i += 1 if len(a) > 2 else 2
+            continue
         if hit:
             flag, val = hit
             if val is None:
